@@ -130,6 +130,17 @@ func (u *Unit) call(st *State, c *ast.CallExpr) []Val {
 			}
 		}
 		fv := u.eval(st, fun)
+		if u.contract != nil {
+			for _, pc := range u.contract.PureCalls {
+				if pc == exprString(fun) {
+					if r, ok := u.applyTerm(fv, args); ok {
+						st.assume(u.typeInv(r))
+						u.noteAbstract(c.Pos(), "call of "+pc+" treated as a pure function of its arguments (purecall)")
+						return []Val{r}
+					}
+				}
+			}
+		}
 		return u.callUnknown(st, "func value "+exprString(fun), sigT, args, c.Pos(), &fv)
 	}
 	// e.g. call of a call result
